@@ -13,6 +13,7 @@ import importlib
 import json
 import os
 import random
+import signal
 import subprocess
 import sys
 import tempfile
@@ -41,6 +42,14 @@ def fp(obj):
 
 class HarnessError(Exception):
   """A failure inside the harness itself (=> inconclusive, never violation)."""
+
+
+class CaseTimeout(BaseException):
+  """Per-case wall-clock watchdog fired (=> inconclusive, never violation)."""
+
+
+def _on_alarm(signum, frame):
+  raise CaseTimeout()
 
 
 class Ctx:
@@ -168,10 +177,23 @@ def run_shard(prop, tier, seed, shard, nshards, params, only_index=None):
     n = mod.cases(ctx)
     # Shards partition the case index space: shard s runs i*nshards + s.
     indices = [only_index] if only_index is not None else range(n)
+    case_timeout = int(params.get('case_timeout_s', 120))
+    signal.signal(signal.SIGALRM, _on_alarm)
+    timeouts = []
     for i in indices:
       ctx.begin_case(i)
       try:
-        mod.run_case(ctx, i)
+        signal.alarm(case_timeout)
+        try:
+          mod.run_case(ctx, i)
+        finally:
+          signal.alarm(0)
+      except CaseTimeout:
+        timeouts.append(i)
+        ctx.counters['case_timeouts'] += 1
+        if len(timeouts) >= 3:
+          raise HarnessError(f'cases {timeouts} exceeded the {case_timeout}s '
+                             'per-case watchdog')
       except HarnessError:
         raise
       except Exception as e:  # pylint: disable=broad-except
@@ -185,6 +207,9 @@ def run_shard(prop, tier, seed, shard, nshards, params, only_index=None):
           raise
     if hasattr(mod, 'teardown'):
       mod.teardown(ctx)
+    if timeouts:
+      raise HarnessError(f'cases {timeouts} exceeded the {case_timeout}s '
+                         'per-case watchdog')
   except BaseException as e:  # pylint: disable=broad-except
     crash = ''.join(traceback.format_exception(e))[-6000:]
   res = ctx.result()
